@@ -355,6 +355,12 @@ def _build_fiber(tree, depth, dflt):
     return F([c for c, _ in tree], [_build_fiber(s, depth - 1, dflt) for _, s in tree], default=dflt)
 
 
+def _odflt(obj, is_tensor, depth, case):
+    """the leaf default the object really has (some transforms do not carry it)"""
+    Payload = H.ft().Payload
+    return Payload.get(obj.getDefault()) if is_tensor and depth >= 1 else case["dflt"]
+
+
 def _run_yaml(case):
     ft = H.ft()
     Fiber, Tensor, Payload = ft.Fiber, ft.Tensor, ft.Payload
@@ -374,7 +380,7 @@ def _run_yaml(case):
         orig = {"tree": snap(root), "rank_ids": [], "shape": [], "name": ""}
     orig["depth"] = depth
     # the leaf default the object really has (some transforms, e.g. unflattenRanks, do not carry it)
-    odflt = Payload.get(obj.getDefault()) if is_tensor and depth >= 1 else case["dflt"]
+    odflt = _odflt(obj, is_tensor, depth, case)
     orig["dflt"] = _num(odflt)
     case["orig"] = orig
     impl, side, errs = {}, {}, {}
@@ -386,7 +392,8 @@ def _run_yaml(case):
     if e:
         errs["dict"] = e
     impl["dict"] = _plain(dct) if dct is not None else None
-    back, e = _try(lambda: Fiber.dict2fiber(copy.deepcopy(dct)))
+    # the dictionary form holds no default: dict2fiber takes it as an argument (like Fiber.fromYAMLfile)
+    back, e = _try(lambda: Fiber.dict2fiber(copy.deepcopy(dct), default=_odflt(obj, is_tensor, depth, case)))
     if e:
         errs["dict2fiber"] = e
     impl["dict_rt"] = snap(back) if back is not None else None
@@ -560,8 +567,7 @@ def _leaves(tree):
 # Known failure classes (root causes), in priority order.  A failing clause is attributed to a class
 # only when the case satisfies the class's input predicate; a failing clause that cannot be attributed
 # makes the signature "unclassified" and is therefore never hidden by known_findings.json.
-CLASSES = ["U2:fiber-shape-of-all-default-nest", "Y1:yaml-load-of-tuple-coordinates",
-           "Y3:default-not-carried-by-dict-or-yaml"]
+CLASSES = ["U2:fiber-shape-of-all-default-nest"]
 
 
 def _attribute(case, clause):
@@ -573,15 +579,6 @@ def _attribute(case, clause):
             # the one-element shape itself, and uncompress() without argument which uses it
             if clause in ("shape", "uncompress-noarg"):
                 return CLASSES[0]
-    if op == "yaml":
-        orig = case.get("orig") or {}
-        tup = _has_tuple(orig.get("tree")) or any(isinstance(x, list) for x in orig.get("shape", []))
-        if clause == "yaml-loads" and tup:
-            return CLASSES[1]
-        odflt = orig.get("dflt", 0)
-        if clause in ("yaml-equal", "dict-roundtrip-equal") and odflt != 0 and \
-                any(v == 0 or v == odflt for v in _leaves(orig.get("tree"))):
-            return CLASSES[2]
     return None
 
 
